@@ -251,6 +251,58 @@ func c08Monitor(args []string) int {
 						rep.Violate("on-demand-pv-not-first", in, fmt.Sprintf("first move %s", got[0].StringUci()))
 					}
 					rep.Stats["on_demand_drains"]++
+					// every move of the position as PV move (corpus positions and a share of the others): the
+					// stages differ in how they sort, so the stage the PV move lives in matters
+					if !ev && (len(g.Moves) == 0 || rng.Chance(6)) {
+						for _, pvm := range get(mode, inCheck) { // PV moves from the delivered set itself
+							od2 := movegen.NewMoveGen()
+							od2.SetPvMove(pvm)
+							q := *p
+							var got2 []Move
+							for {
+								m := od2.GetNextMove(&q, mode, inCheck)
+								if m == MoveNone || len(got2) > 400 {
+									break
+								}
+								got2 = append(got2, m)
+							}
+							want2 := sortedCodes(get(mode, inCheck))
+							in2 := map[string]interface{}{"fen": fen, "mode": modeName(mode), "evasion": inCheck, "pv": pvm.StringUci(), "reset": true, "alien_pv": false}
+							g2 := sortedCodes(got2)
+							if hasDup(g2) {
+								rep.Violate("batch-duplicate-move", in2, "on demand delivers a move twice: "+codesToUci(g2))
+							} else if inCheck {
+								// evasion mode: phased and batch lists may differ in illegal moves only
+								var lg, lw []int
+								for _, c := range g2 {
+									if p.IsLegalMove(Move(c)) {
+										lg = append(lg, c)
+									}
+								}
+								for _, c := range want2 {
+									if p.IsLegalMove(Move(c)) {
+										lw = append(lw, c)
+									}
+								}
+								if !eqInts(lg, lw) {
+									rep.Violate("evasion-omits-legal-move", in2, fmt.Sprintf("legal among on-demand evasions [%s] ; legal among batch evasions [%s]", codesToUci(lg), codesToUci(lw)))
+								}
+							} else if !eqInts(g2, want2) {
+								rep.Violate("on-demand-differs-from-batch", in2, fmt.Sprintf("on demand [%s] ; batch [%s]", codesToUci(g2), codesToUci(want2)))
+							} else {
+								inMode := false
+								for _, c := range want2 {
+									if c == int(pvm.MoveOf()) {
+										inMode = true
+									}
+								}
+								if inMode && got2[0].MoveOf() != pvm.MoveOf() {
+									rep.Violate("on-demand-pv-not-first", in2, "first move "+got2[0].StringUci())
+								}
+							}
+							rep.Stats["pv_sweep_drains"]++
+						}
+					}
 					// sometimes leave the generator half drained on this position before the next one
 					if rng.Chance(30) {
 						for k := rng.Intn(4); k > 0; k-- {
